@@ -37,6 +37,21 @@ CHECKS.update({
     ),
 })
 
+CHECKS.update({
+    "C19": dict(
+        technique="Lean 4 proof over exact rationals (normalisation, ratios, idempotence, rule-order independence; choosers reduced to the C18 weighted-choice theorem) + differential correspondence on generated weighted hierarchies and all draws of the choosers",
+        text="Theorems (Props/C19.lean, 12): after extraction every rule's production weights lie in [0,1], sum to exactly 1 and keep the declared ratios (undeclared = 1); re-extraction is the identity for any number of repetitions and any rule order; the depth heuristic of ProgressivelyTerminalDecider is zero exactly in the characterised cases and neither it nor the stack chooser returns a zero-weight production while a positive one is available, for every sound random source.",
+        note="Floats are MODELLED as exact rationals: dyadic weights are compared exactly, arbitrary floats within 2^-50; weights below choice_weighted's resolution (1e-5) are excluded by hypothesis. Distances / recursive sets are inputs taken from the implementation (C05). Trusted: Lean kernel + standard axioms.",
+        design="5/C19",
+    ),
+    "C20": dict(
+        technique="Lean 4 proof on a model of the recorder (ordered field dict, closure binding, adversarial-spill file model) for all objective counts / field configurations / histories / kill points + differential correspondence reading the real file through a second handle after every register (incl. SIGKILLed child processes)",
+        text="Theorems (Props/C20.lean, 15): the header equals the configured columns; in every row the cell under Fitness k is component k of THAT individual and every extra field is its own callback on that individual's program (also for SimpleGP's wrappers); one row per registration (per strict improvement in only-best mode); after construction and after every register the buffer is empty and the disk is header + complete rows, so the disk content at any kill point between two registrations is a prefix of the full log made of complete rows only; a kill inside a registration leaves old rows plus a byte prefix of the new row.",
+        note="CSV quoting is abstract in the model (the csv module's round-trip is re-checked on every real file); OS page cache / buffering is represented by the adversary only; Execution Time column canonicalised. Trusted: Lean kernel + standard axioms.",
+        design="5/C20",
+    ),
+})
+
 NOT_YET = {}
 
 
